@@ -6,6 +6,7 @@ PROPS["C34"] = dict(
                "revm::JournaledState::sload (crates/revm/src/journaled_state.rs): every path of its MIR body (sstore reads the slot through it)",
                "revm::handler::mainnet::pre_execution::load_accounts (generic body): coinbase / BLOCKHASH_STORAGE_ADDRESS pre-warming gates",
                "revm::JournaledState::initial_account_load (access-list / authority pre-loading): the loop-free prefix and ONE iteration of the key loop (back edges cut)",
+               "revm_interpreter::gas::{sstore_cost, sload_cost, warm_cold_cost, call_cost, selfdestruct_cost} (crates/interpreter/src/gas/calc.rs): the cold/warm price maps (C14's harnesses)",
                "revm_primitives::Account::{mark_warm, mark_cold, new_not_existing}, From<AccountInfo> for Account, EvmStorageSlot::{new, new_changed, mark_warm, mark_cold} "
                "(crates/primitives/src/state.rs): all 256 status bytes, all slot values"],
     bounds="load_account: every path x (entry present?, result of mark_warm, result of warm_preloaded_addresses.contains); sload: every path x (slot present?, result of "
@@ -13,7 +14,7 @@ PROPS["C34"] = dict(
            "mark_warm / mark_cold: all 2^8 status bytes, all 2^512 slot value pairs",
     outside="the composition of per-entry un-warming into whole-frame forgetting (the per-entry facts are decided by the job shared with C06), which addresses "
             "and keys load_access_list / the EIP-7702 handler hand to initial_account_load, precompile addresses in warm_preloaded_addresses (set_precompiles), that the "
-            "instructions charge the price matching the reported flag (the price maps themselves are decided under C14), the per-transaction statement",
+            "instructions hand the reported flag to the price function (the price maps themselves are decided, by C14's harnesses run here too), the per-transaction statement",
     assumptions=["std HashMap::entry / HashSet::contains / Vec::push behave as documented (they are uninterpreted in the encoding: their results are free variables, "
                  "the policy is checked for every value of them)",
                  "tags: 11xx field xx of the cached slot, 12 constant zero, 13 database answer, 14 error; journal entries 31 AccountWarmed, 32 StorageWarmed",
@@ -22,6 +23,11 @@ PROPS["C34"] = dict(
     harnesses=[H("c34::c34_account_mark_warm_cold", timeout=600, mem_gb=4, bounds="all 256 status bytes", stubs_expected=_C34_RS),
                H("c34::c34_loaded_accounts_start_warm", timeout=600, mem_gb=4, bounds="all balances / nonces", stubs_expected=_C34_RS),
                H("c34::c34_slot_mark_warm_cold", timeout=600, mem_gb=4, bounds="all original/present values, both marks"),
+               # the warm/cold price maps are C14's harnesses; they are part of what `charged exactly` means here and run under C34 too
+               H("c14::c14_sstore_cost", timeout=600, mem_gb=6, bounds="SSTORE cost for all (original, present, new) x cold/warm x remaining gas, Frontier / Istanbul / Berlin+ schedules"),
+               H("c14::c14_sload_and_warm_cold", timeout=600, mem_gb=6, bounds="SLOAD and account-access cost for every fork class x cold/warm"),
+               H("c14::c14_call_cost", timeout=600, mem_gb=6, bounds="CALL cost for every fork class x cold/warm x value x new account"),
+               H("c14::c14_selfdestruct_cost", timeout=600, mem_gb=6, bounds="SELFDESTRUCT cost for every fork class x cold/warm x value x target exists"),
                H("c34::c34_twin_must_fail", expect_fail=True, timeout=600, mem_gb=4, bounds="vacuity twin", stubs_expected=_C34_RS)],
     jobs=[dict(name="e3::warming_kernel", fn=_jobs_c34.run_warm_kernel),
           dict(name="e3::journal_revert_per_entry", fn=__import__("jobs_c06").run_journal_revert)],  # shared with C06: un-warming on revert
